@@ -498,7 +498,7 @@ func canonManaged(m managedSpec) string {
 func TestManaged(t *testing.T) {
 	r := evid.R()
 	ctx := context.Background()
-	r.Check(t, r.Scale(800, 40000), 1, func(t *rapid.T) {
+	r.Check(t, r.Scale(4000, 60000), 1, func(t *rapid.T) {
 		ws := protogen.GenWorkspace(t, genConfig())
 		plantOptions(t, ws)
 		rw := ws.Render()
